@@ -42,6 +42,9 @@ pub struct CbConfig {
     /// install the custom classifier on the builder before the other settings instead of after
     #[serde(default)]
     pub classifier_first: bool,
+    /// every kind of event listener is registered on the layer
+    #[serde(default)]
+    pub listeners: bool,
 }
 
 #[derive(Clone, Debug, Serialize, Deserialize, PartialEq)]
@@ -92,7 +95,7 @@ pub fn config_strategy() -> BoxedStrategy<CbConfig> {
         prop_oneof![Just(20u64), 20u64..=200],
         prop_oneof![1 => Just(None), 1 => (5u64..=40, 0u8..=10).prop_map(Some)],
         any::<bool>(),
-        (prop_oneof![2 => Just(None), 1 => (0u8..=10).prop_map(Some)], prop_oneof![12 => Just(0u8), 1 => 1u8..=3], any::<bool>()),
+        (prop_oneof![2 => Just(None), 1 => (0u8..=10).prop_map(Some)], prop_oneof![12 => Just(0u8), 1 => 1u8..=3], any::<bool>(), prop::bool::weighted(0.3)),
     )
         .prop_map(
             |(
@@ -105,7 +108,7 @@ pub fn config_strategy() -> BoxedStrategy<CbConfig> {
                 wait_ms,
                 slow,
                 custom_classifier,
-                (idle_slow_rate10, wait_huge, classifier_first),
+                (idle_slow_rate10, wait_huge, classifier_first, listeners),
             )| {
                 CbConfig {
                     time_based,
@@ -120,6 +123,7 @@ pub fn config_strategy() -> BoxedStrategy<CbConfig> {
                     idle_slow_rate10: if slow.is_some() { None } else { idle_slow_rate10 },
                     wait_huge,
                     classifier_first,
+                    listeners,
                 }
             },
         )
@@ -426,6 +430,15 @@ pub fn apply_settings<C>(
     } else if let Some(r10) = c.idle_slow_rate10 {
         b = b.slow_call_rate_threshold(r10 as f64 / 10.0);
     }
+    if c.listeners {
+        b = b
+            .on_call_permitted(|_| {})
+            .on_call_rejected(|| {})
+            .on_success(|_| {})
+            .on_failure(|_| {})
+            .on_slow_call(|_| {})
+            .on_state_transition(|_, _| {});
+    }
     b
 }
 
@@ -708,6 +721,9 @@ pub fn report_of(case: &CbCase) -> Report {
     });
     if case.cfg.custom_classifier {
         r.class("custom_classifier");
+    }
+    if case.cfg.listeners {
+        r.class("event_listeners_registered");
     }
     if case.cfg.slow.is_some() {
         r.class("slow_detection_on");
